@@ -63,6 +63,12 @@ def as_container(kind, values):
         return numpy.array(list(values), dtype=numpy.float64)
     if kind == "ndarray_int":
         return numpy.array(list(values), dtype=numpy.int64)
+    if kind == "ndarray_object":
+        return numpy.array(list(values), dtype=object)
+    if kind == "ndarray_f32":
+        return numpy.array(list(values), dtype=numpy.float32)
+    if kind == "ndarray_i32":
+        return numpy.array([int(v) for v in values], dtype=numpy.int32)
     raise ValueError(kind)
 
 
